@@ -78,6 +78,35 @@ def origin_chains(facts, fn, op, max_hops=6):
     return done + chains
 
 
+MAPPING_ADAPTORS = r"iter::Iterator::(map|flat_map|filter_map)$|Option::<T>::(map|and_then)$"
+
+
+def element_hops(facts, chain, max_depth=4):
+    """The chain plus one hop per *mapping* closure on it: the elements of `xs.flat_map(f)` / `xs.map(f)` / `xs.filter_map(f)` are
+    what `f` returns, so the return-value slice of `f` (and of mapping closures nested in it) is part of the element's
+    history — `lines.flat_map(|l| l.split(sep))` splits every line exactly as `lines.any(|l| l.split(sep).any(..))` does.
+    Closures that only *select* elements (filter, take_while, inspect, any, find) return no element and add no hop."""
+    rx = re.compile(MAPPING_ADAPTORS)
+    out = list(chain)
+    seen = set(id(h.fn) for h in chain)
+    work = [(h, 0) for h in chain]
+    while work:
+        h, d = work.pop()
+        if d >= max_depth:
+            continue
+        for c, bb, t in h.sl.callees:
+            if not rx.search(c) or len(t["args"]) < 2:
+                continue
+            g, node = closure_of_operand(h.fn, t["args"][1])
+            if g is None or id(g) in seen:
+                continue
+            seen.add(id(g))
+            nh = Hop(g, g.slice({"l": 0, "p": []}), (bb, t, node, 1))
+            out.append(nh)
+            work.append((nh, d + 1))
+    return out
+
+
 def chain_calls(chain, pattern):
     rx = re.compile(pattern)
     out = []
@@ -85,6 +114,17 @@ def chain_calls(chain, pattern):
         for c, bb, t in h.sl.callees:
             if rx.search(c) or (t.get("resolved") and rx.search(t["resolved"])):
                 out.append((h.fn, bb, t))
+    return out
+
+
+def chain_fnitems(chain):
+    """Function items handed to mapping adaptors on the chain (`.map(str::trim)`): [(fn, bb, term, path)]."""
+    rx = re.compile(MAPPING_ADAPTORS)
+    out = []
+    for h in chain:
+        for c, bb, t in h.sl.callees:
+            if rx.search(c) and len(t["args"]) > 1 and t["args"][1].get("k") == "const" and t["args"][1].get("fn"):
+                out.append((h.fn, bb, t, t["args"][1]["fn"]))
     return out
 
 
@@ -141,6 +181,24 @@ def resolve_lit(chain, op):
     if idx is None or idx >= len(node["rv"]["ops"]):
         return None
     return resolve_lit(chain[1:], node["rv"]["ops"][idx])
+
+
+def returned_variant_sites(f, variant, adt="std::result::Result"):
+    """Blocks of the `adt::variant{..}` aggregates that are the function's return value: the return place and the locals
+    moved into it as a whole (`_0 = move _9`).  Aggregates of the same ADT that are only intermediate values (the result
+    of an inlined helper that is split by `?`, the arms of a desugared combinator) are not listed."""
+    locs, work = set(), [0]
+    while work:
+        l = work.pop()
+        if l in locs:
+            continue
+        locs.add(l)
+        for bb, kind, node in f.defs().get(l, []):
+            if kind == "assign" and not node["pl"]["p"] and node["rv"]["rv"] == "use":
+                l2 = operand_local(node["rv"]["op"])
+                if l2 is not None and not node["rv"]["op"].get("pl", {}).get("p"):
+                    work.append(l2)
+    return [bb for bb, i, st in f.aggregates("^" + re.escape(adt) + "$", variant) if st["pl"]["l"] in locs and not st["pl"]["p"]]
 
 
 # ------------------------------------------------------------------------------------------------ "true only after" reasoning
@@ -254,6 +312,15 @@ def lift_atom(facts, chain, ebb):
             if _const_bool(t["args"][1]) is not False:
                 return None, "map_or default is not `false`"
             cur = bb
+        elif re.search(r"iter::Iterator::(find|position|rposition)$", c):
+            # `xs.find(test).is_some()`: Some only if the test held for an element
+            cands = [t["dest"]["l"]]
+            for _ in range(3):
+                cands += [st["pl"]["l"] for _, _, st in par.stmts() if st["rv"]["rv"] == "use" and operand_local(st["rv"]["op"]) in cands and not st["pl"]["p"] and st["pl"]["l"] not in cands]
+            nxt = [b2 for b2, t2 in par.live_calls(r"Option::<T>::is_some$") if t2["args"] and owned_root(par, t2["args"][0])[0] in cands]
+            if len(nxt) != 1:
+                return None, "the result of %s(test) is not tested with is_some()" % c.split("::")[-1]
+            cur = nxt[0]
         elif re.search(r"Option::<T>::map$", c):
             # Option<bool> folded by unwrap_or(false) / unwrap_or_default()
             nxt = None
@@ -270,7 +337,45 @@ def lift_atom(facts, chain, ebb):
             cur = nxt
         else:
             return None, "the element test is the closure of %s, which is not an existential adaptor" % c.split("::")[-1]
-    return cur, None
+    return fold_option_bool(chain[-1].fn, cur), None
+
+
+def fold_option_bool(f, bb, max_hops=4):
+    """A bool call result that is only wrapped as `Some(result)` into an Option<bool> whose other definitions are `None`, and
+    that Option folded by `unwrap_or(false)` / `unwrap_or_default()`: the fold is true only if the call was evaluated and true,
+    so it is the same test one step later (the normalised view of `opt.map(|x| test(x)).unwrap_or(false)`, where the closure
+    of `map` is spliced into the Some arm).  Returns the block of the folding call, or `bb` unchanged."""
+    t = f.blocks[bb]["term"]
+    if t["t"] != "call" or t["dest"]["p"]:
+        return bb
+
+    def with_moves(ls):
+        ls = set(ls)
+        for _ in range(max_hops):
+            ls |= set(st["pl"]["l"] for _, _, st in f.stmts() if st["rv"]["rv"] == "use" and operand_local(st["rv"]["op"]) in ls and not st["pl"]["p"])
+        return ls
+    vals = with_moves([t["dest"]["l"]])
+    opts = set()
+    for _, _, st in f.stmts():
+        rv = st["rv"]
+        if rv["rv"] == "agg" and rv.get("adt") == "std::option::Option" and rv.get("variant") == "Some" and not st["pl"]["p"] and operand_local(rv["ops"][0]) in vals:
+            opts.add(st["pl"]["l"])
+    for x in sorted(opts):
+        ok = True
+        for dbb, kind, node in f.defs().get(x, []):
+            if f.blocks[dbb]["cleanup"]:
+                continue
+            rv = node.get("rv", {}) if kind == "assign" else {}
+            if not (kind == "assign" and not node["pl"]["p"] and rv.get("rv") == "agg" and rv.get("adt") == "std::option::Option"
+                    and (rv.get("variant") == "None" or operand_local(rv["ops"][0]) in vals)):
+                ok = False
+        if not ok or _mut_borrowed(f, x):
+            continue
+        xs = with_moves([x])
+        for b2, t2 in f.live_calls(r"Option::<T>::(unwrap_or|unwrap_or_default)$"):
+            if operand_local(t2["args"][0]) in xs and (t2["callee"].endswith("unwrap_or_default") or _const_bool(t2["args"][1]) is False):
+                return b2
+    return bb
 
 
 # ------------------------------------------------------------------------------------------------ concrete char predicates
@@ -437,7 +542,8 @@ def pattern_answers(facts, fn, pat, chars):
 
 # ------------------------------------------------------------------------------------------------ hasher lineage
 ABSORB = r"(^|::)(Digest::update|Digest::chain_update|Update::update|Update::chain)$"
-FRESH = r"(^|::)(Default::default|Digest::new|Sha1::new|Sha1Core::default)$"
+FRESH = r"(^|::)(Default::default|Digest::new|Digest::new_with_prefix|Sha1::new|Sha1Core::default)$"
+WITH_PREFIX = r"(^|::)Digest::new_with_prefix$"
 
 
 def hasher_root(f, op, ty_rx, max_hops=10):
@@ -497,6 +603,157 @@ def hasher_lineage(f, fin_term, ty_rx):
             else:
                 bad.append("state written by %s" % (node.get("rv", {}).get("rv") or kind))
     return lin, inits, bad
+
+
+# ------------------------------------------------------------------------------------------------ the hashed message, idiom-independent
+ONE_SHOT = r"(^|::)Digest::digest$"
+FINALIZE = r"(^|::)Digest::finalize$"
+DIGEST_OUT = r"(^|::)Digest::(finalize|digest)$"
+BUF_FRESH = r"vec::Vec::<T>::(new|with_capacity)$|string::String::(new|with_capacity)$|Default::default$"
+BUF_FROM = r"<impl \[T\]>::to_vec$|borrow::ToOwned::to_owned$|convert::From::from$|convert::Into::into$|vec::Vec::<T>::from$"
+BUF_APPEND = r"vec::Vec::<T, A>::extend_from_slice$|iter::Extend::extend$|string::String::push_str$"
+BUF_VIEW = r"ops::Deref::deref$|convert::AsRef::as_ref$|borrow::Borrow::borrow$|vec::Vec::<T, A>::as_slice$|string::String::(as_bytes|as_str)$|str::<impl str>::as_bytes$"
+CONCAT = r"slice::<impl \[T\]>::concat$|slice::Concat::concat$"
+
+
+def _single_def(f, l):
+    ds = [d for d in f.defs().get(l, []) if not f.blocks[d[0]]["cleanup"]]
+    return ds[0] if len(ds) == 1 else None
+
+
+def owned_root(f, op, view_rx=None, max_hops=12):
+    """The owned local behind an operand: shared/mutable borrows, reborrows, whole-value moves and (optionally) view calls
+    (`Deref::deref(&v)`, `as_slice`) are followed.  Returns (local, went through a `&mut`) or (None, False)."""
+    cur, mut = operand_local(op), False
+    rx = re.compile(view_rx) if view_rx else None
+    for _ in range(max_hops):
+        if cur is None:
+            return None, False
+        if not f.local_ty(cur).startswith("&") or 1 <= cur <= f.argc:
+            return cur, mut
+        d = _single_def(f, cur)
+        if d is None:
+            return None, False
+        bb, kind, node = d
+        if kind == "assign" and not node["pl"]["p"]:
+            rv = node["rv"]
+            if rv["rv"] == "ref" and rv["pl"]["p"] in ([], ["*"]):
+                mut = mut or bool(rv.get("mut"))
+                cur = rv["pl"]["l"]
+            elif rv["rv"] in ("use", "cast"):
+                cur = operand_local(rv["op"])
+            else:
+                return None, False
+        elif kind == "call" and rx and rx.search(node.get("callee") or "") and node["args"]:
+            cur = operand_local(node["args"][0])
+        else:
+            return None, False
+    return None, False
+
+
+def digest_message(f, ty_rx):
+    """What is hashed, as an ordered list of byte pieces, whatever the idiom:
+      * streaming  — `h = fresh(); h.update(a); h.update(b); h.finalize()` or `fresh().chain_update(a).chain_update(b).finalize()`;
+      * one-shot   — `Digest::digest(buf)` where `buf` is built in this function: an empty Vec/String appended to with
+                     extend_from_slice / extend / push_str, a copy of the first piece (`a.to_vec()`) appended to, or
+                     `[a, b].concat()`.
+    Returns a dict {form, out=(bb, term) of the call producing the digest, pieces=[(bb, operand)] in program order,
+    ordered (each piece's block strictly dominates the next and the last dominates `out`, none in a loop), one_state
+    (ok, text), fresh (ok, text)} or a string naming the anchor that was not found."""
+    ups, fin, shots = f.live_calls(ABSORB), f.live_calls(FINALIZE), f.live_calls(ONE_SHOT)
+    if len(fin) + len(shots) != 1:
+        return "exactly one Digest::finalize / Digest::digest in %s (%d/%d)" % (f.id.split("::")[-1], len(fin), len(shots))
+    loops = f.loop_blocks()
+
+    def in_order(sites, out_bb):
+        seq = sites + [out_bb]
+        return all(seq[i] != seq[i + 1] and f.dominates(seq[i], seq[i + 1]) for i in range(len(seq) - 1)) and not any(b in loops for b in sites)
+
+    def sort_sites(pieces):
+        # program order = dominance order (a total order is required; otherwise the original order is kept and `ordered` fails)
+        return sorted(pieces, key=lambda p: sum(1 for q in pieces if q[0] != p[0] and f.dominates(q[0], p[0])))
+    if fin:
+        fbb, ft = fin[0]
+        lin, inits, probs = hasher_lineage(f, ft, ty_rx)
+        # `Sha1::new_with_prefix(a)` = a fresh state that has absorbed `a`
+        pre = [(bb, t["args"][0]) for bb, t in f.live_calls(WITH_PREFIX) if t["args"] and not t["dest"]["p"] and t["dest"]["l"] in lin]
+        pieces = sort_sites(pre + [(bb, t["args"][1]) for bb, t in ups if len(t["args"]) > 1])
+        roots = [hasher_root(f, t["args"][0], ty_rx) for bb, t in ups]
+        one = bool(lin) and bool(roots) and all(r in lin for r in roots) and not probs
+        return {"form": "streaming", "out": (fbb, ft), "pieces": pieces, "ordered": in_order([p[0] for p in pieces], fbb),
+                "one_state": (one, "every absorbed value and finalize operate on one SHA-1 state lineage (locals %s; absorbed into %s)%s" % (sorted(lin), roots, ("; " + "; ".join(probs)) if probs else "")),
+                "fresh": (len(inits) == 1 and not probs, "hasher initialised by %s" % inits)}
+    obb, ot = shots[0]
+    if ups:
+        return "a one-shot Digest::digest next to %d update call(s)" % len(ups)
+    if not ot["args"]:
+        return "the argument of Digest::digest"
+    root, _ = owned_root(f, ot["args"][0], BUF_VIEW)
+    if root is None:
+        return "the buffer handed to Digest::digest (not an owned value built in this function)"
+    if 1 <= root <= f.argc:
+        # digest(key) alone: one piece, the caller decides that this is not key ++ GUID
+        return {"form": "one-shot", "out": (obb, ot), "pieces": [(obb, ot["args"][0])], "ordered": True, "one_state": (True, "the argument itself is hashed"), "fresh": (True, "Digest::digest starts from the initial state")}
+    pieces, probs, fresh = [], [], []
+    work, seen = [root], set()
+    while work:
+        l = work.pop()
+        if l in seen:
+            continue
+        seen.add(l)
+        for bb, kind, node in f.defs().get(l, []):
+            if f.blocks[bb]["cleanup"]:
+                continue
+            if kind == "call":
+                c = node.get("callee") or ""
+                if re.search(BUF_FRESH, c) or re.search(BUF_FRESH, node.get("resolved") or ""):
+                    fresh.append(c)
+                elif re.search(CONCAT, c) and node["args"]:
+                    arr, _m = owned_root(f, node["args"][0])
+                    d = _single_def(f, arr) if arr is not None else None
+                    if d is None or d[1] != "assign" or d[2]["rv"]["rv"] != "agg" or d[2]["rv"].get("agg") != "array":
+                        probs.append("concat() of something that is not an array literal")
+                    else:
+                        # the elements of the array literal, in order; all in one block: a rank keeps their order
+                        for i, o in enumerate(d[2]["rv"]["ops"]):
+                            pieces.append((d[0], o, i))
+                        fresh.append(c)
+                elif re.search(BUF_FROM, c) and len(node["args"]) == 1:
+                    pieces.append((bb, node["args"][0], 0))
+                    fresh.append(c)
+                else:
+                    probs.append("buffer produced by %s" % c)
+            elif kind == "assign" and not node["pl"]["p"] and node["rv"]["rv"] == "use" and operand_local(node["rv"]["op"]) is not None:
+                work.append(operand_local(node["rv"]["op"]))
+            else:
+                probs.append("buffer written by %s" % (node.get("rv", {}).get("rv") or kind))
+    # every call that receives a mutable borrow of the buffer either appends a piece or is a problem
+    for bb, t in f.live_calls():
+        for i, a in enumerate(t["args"]):
+            r, mut = owned_root(f, a)
+            if r in seen and mut:
+                c = t.get("callee") or "<indirect>"
+                if i == 0 and re.search(BUF_APPEND, c) and len(t["args"]) == 2:
+                    pieces.append((bb, t["args"][1], 0))
+                elif re.search(r"vec::Vec::<T, A>::reserve(_exact)?$|string::String::reserve(_exact)?$", c):
+                    pass
+                else:
+                    probs.append("the buffer is also modified by %s" % c)
+    # by-value uses other than the digest (a buffer moved elsewhere and back is not followed)
+    for l in seen:
+        if any(st["rv"]["rv"] == "ref" and st["rv"].get("mut") and st["rv"]["pl"]["l"] == l and st["rv"]["pl"]["p"] for _, _, st in f.stmts()):
+            probs.append("a part of the buffer is borrowed mutably")
+        if any(st["pl"]["l"] == l and st["pl"]["p"] for _, _, st in f.stmts()):
+            probs.append("a part of the buffer is assigned")
+    ranked = sorted(pieces, key=lambda p: (sum(1 for q in pieces if q[0] != p[0] and f.dominates(q[0], p[0])), p[2]))
+    sites = []
+    for p in ranked:
+        if not sites or sites[-1] != p[0]:
+            sites.append(p[0])
+    same_block_ok = all(len(set(q[2] for q in ranked if q[0] == b)) == sum(1 for q in ranked if q[0] == b) for b in sites)
+    return {"form": "one-shot", "out": (obb, ot), "pieces": [(p[0], p[1]) for p in ranked], "ordered": in_order(sites, obb) and same_block_ok,
+            "one_state": (not probs, "Digest::digest hashes one buffer (locals %s) built here%s" % (sorted(seen), ("; " + "; ".join(sorted(set(probs)))) if probs else "")),
+            "fresh": (len(fresh) == 1 and not probs, "buffer initialised by %s; Digest::digest starts from the initial state" % fresh)}
 
 
 # ------------------------------------------------------------------------------------------------ "a success is not forgotten"
